@@ -367,16 +367,11 @@ Section DedupFacts.
   Qed.
 
   (* the rerun after a history in which another client of the same core may have been generated in between:
-     PARTIAL (F09h) *)
-  Theorem rerun_history_partial : forall g found touched,
-    dedup_total san g = true -> wf_layout san g = true -> guard_F09h g touched = true ->
+     FULL since the fix of F09h *)
+  Theorem rerun_history_full : forall g found touched,
+    dedup_total san g = true -> wf_layout san g = true ->
     run_noforce san g (existing_after san g found touched) = (ROk, existing_after san g found touched).
-  Proof.
-    intros g found touched Hd Hwf G. unfold existing_after, guard_F09h in *.
-    destruct touched; simpl in G.
-    - destruct (gap_inits g); [|discriminate]. rewrite app_nil_r. apply rerun_full; assumption.
-    - rewrite app_nil_r. apply rerun_full; assumption.
-  Qed.
+  Proof. intros g found touched Hd Hwf. unfold existing_after. apply rerun_full; assumption. Qed.
 
   (* conversely: a common *.py file whose text is not what would be generated now is always reported *)
   Theorem rerun_detects : forall g existing p c c',
@@ -479,19 +474,21 @@ Definition s_x : str := [120].
 Definition g_F09h : gen_input :=
   {| g_client := s_c1; g_out := [s_c1]; g_core := [s_c1; s_x; s_core]; g_core_given := true;
      g_shared := true; g_ops := [(s_default, s_foo)]; g_codes := [404] |}.
-Lemma refuted_F09h :
-  guard_F09h g_F09h true = false /\ dedup_total idS g_F09h = true /\ wf_layout idS g_F09h = true /\
+(* regression for the fixed F09h: the intermediate package file is part of both trees and the rerun succeeds whether or
+   not another client of the same core was generated in between *)
+Lemma regression_F09h :
+  dedup_total idS g_F09h = true /\ wf_layout idS g_F09h = true /\
   gap_inits g_F09h = [([s_c1; s_x; s_init], CEmpty)] /\
-  rerun_differing idS g_F09h (existing_after idS g_F09h [] true) = [[s_c1; s_x; s_init]] /\
-  fst (run_noforce idS g_F09h (existing_after idS g_F09h [] true)) = RDifferences /\
+  tlookup [s_c1; s_x; s_init] (tree_force idS g_F09h []) = Some CEmpty /\
+  tlookup [s_c1; s_x; s_init] (tree_temp idS g_F09h []) = Some CEmpty /\
+  fst (run_noforce idS g_F09h (existing_after idS g_F09h [] true)) = ROk /\
   fst (run_noforce idS g_F09h (existing_after idS g_F09h [] false)) = ROk.
 Proof. repeat split; vm_compute; reflexivity. Qed.
 
 Lemma modes_nonvacuous :
   dedup_total idS g_plain = true /\ wf_layout idS g_plain = true /\
   length (tree_force idS g_plain []) = 15%nat /\
-  dedup_total idS g_F09d = true /\ wf_layout idS g_F09d = true /\
-  guard_F09h g_F09d true = true /\ guard_F09h g_F09h false = true.
+  dedup_total idS g_F09d = true /\ wf_layout idS g_F09d = true.
 Proof. repeat split; vm_compute; reflexivity. Qed.
 
 (* ================================================================================================
